@@ -7,6 +7,7 @@ import MotoModel.Proofs.GenFn
 import MotoModel.Proofs.DiskSector
 import MotoModel.Spec.Dos
 import MotoModel.Proofs.DiskByte0
+import MotoModel.Proofs.DiskKindFlag
 namespace Moto.C04
 open Moto Moto.Disk
 
@@ -123,6 +124,28 @@ theorem created_image_is_well_formed (fl : Flavour) (w : Tape.World) (verbose : 
   · intro k hk
     obtain ⟨bat, own, inv⟩ := hok.2 k hk
     exact fsck_strict _ (fsck_of_inv inv) (hp k hk)
+
+/-- **C04 (kind and flag follow the documented extension rules, on the raw bytes)**: in every image
+    `--create` writes, every stored file is the content of one of the sources, and bytes 11 and 12 of
+    its catalog entry are the kind and the ASCII flag the extension table (`kind_table`) gives for that
+    source: BAS → 0/00, BAS,A → 0/FF, BIN → 2/00, TXT → 3/FF, AUTO.BAT → 0/00, anything else → 1/00. -/
+theorem created_entries_follow_extension_rules (fl : Flavour) (w : Tape.World) (verbose : Bool) (archive : Str) (srcs : List Str)
+    (hs : ∀ src ∈ srcs, CleanSrc src) :
+    ∃ img, ImgOk img ∧ (create fl w verbose archive srcs).writes = [(archive, save fl img)]
+      ∧ ∀ k j r c, k < 4 → j < 112 → imgFileAt img k j = some (r, c) →
+          ∃ src ∈ srcs, w (splitSource src).2.2.2 = some c
+            ∧ r.getD 11 0 = (dispatch (splitSource src).1 (splitSource src).2.1 (splitSource src).2.2.1).1
+            ∧ r.getD 12 0 = (dispatch (splitSource src).1 (splitSource src).2.1 (splitSource src).2.2.1).2.1 := by
+  obtain ⟨st, hst, hok, _, hof⟩ := performCore_files w verbose _ srcs fresh_img_ok hs
+  refine ⟨st.img, hok, ?_, ?_⟩
+  · unfold create performOn; rw [if_neg (by simp), hst]
+  · intro k j r c hk hj hf
+    rcases hof k j r c hk hj hf with h | ⟨src, hsrc, name, ext, kind, flag, hoff, hrec⟩
+    · rw [fresh_no_file k j hk hj] at h; cases h
+    · obtain ⟨hw, _, hkind, hflag, _⟩ := hoff
+      have hr := dispatch_range (splitSource src).1 (splitSource src).2.1 (splitSource src).2.2.1
+      have := stored_kind_flag r name ext kind flag c.length hrec (by rw [hkind]; exact hr.1) (by rw [hflag]; exact hr.2)
+      exact ⟨src, hsrc, hw, by rw [this.1, hkind], by rw [this.2, hflag]⟩
 
 /-- **C04 (status rules, tied by translation)**: the status tests and the usage rule of
     `block_allocation.py`, translated from the source on every run (Gen/Fn.lean), are the functions of
